@@ -105,6 +105,8 @@ fn status_str(s: &BackendStatus) -> &'static str {
 /// connect returns at once, nothing needs to listen). `variant` picks IPv4 / IPv6 and the port base.
 pub fn addr_table(n: usize, variant: u64, unreachable: usize) -> Vec<SocketAddr> {
     let base = 20000 + (variant % 20000) as u16;
+    // IPv6 loopback only where the host has it (otherwise every connect to it would fail immediately)
+    let variant = if std::net::TcpListener::bind("[::1]:0").is_ok() { variant } else { 0 };
     (1..=n)
         .map(|i| {
             if i == unreachable {
